@@ -2,6 +2,7 @@
 //   dec <hex>                 Xml::decode on the bytes -> "null" | canonical dump with parent flags
 //   enc <fmt> <tree tokens>   build the DOM with the public API, print hex(Xml::encode(tree, fmt))
 //   rt  <fmt> <tree tokens>   dump(Xml::decode(Xml::encode(tree, fmt)))
+//   deep <n> <kind>           decode a document nested n levels (0: closed, 1: closed then mismatched end tag, 2: unclosed)
 // tree tokens (preorder): E <hextag> <nattr> {<hexname> <hexval>} <nchildren> children... | T <hextext>
 // dump: element  E<hextag>[<hexname>=<hexval>,...]{<flag><child> ...}   text  T<hex>
 //       flag '+' iff child.parent() == containing element, '!' otherwise
@@ -76,9 +77,42 @@ static bool build(const Toks& t, size_t& i, Xml& out)
 	return true;
 }
 
+// nesting depth and parent links of a possibly very deep tree, without recursion
+static std::string deepShow(const Xml& root)
+{
+	if (!root) return "deep null";
+	long long depth = 0, nodes = 0, bad = 0;
+	std::vector<std::pair<Xml, long long> > work;
+	work.push_back(std::make_pair(root, 1LL));
+	while (!work.empty()) {
+		Xml e = work.back().first;
+		long long d = work.back().second;
+		work.pop_back();
+		nodes++;
+		if (d > depth) depth = d;
+		if (e.isText()) continue;
+		for (int i = 0; i < e.numChildren(); i++) {
+			if (!(e.child(i).parent() == e)) bad++;
+			work.push_back(std::make_pair(e.child(i), d + 1));
+		}
+	}
+	return "deep depth=" + str(depth) + " nodes=" + str(nodes) + " badparents=" + str(bad);
+}
+
 static std::string step(const Toks& t)
 {
 	const std::string& op = t[0];
+	if (op == "deep" && t.size() == 3) {
+		// documents nested N levels, built here (no model side: judged by the plugin's `extra`)
+		long long n = num(t[1]);
+		std::string d;
+		if (t[2] == "1") d += "<r>";
+		for (long long i = 0; i < n; i++) d += "<a>";
+		if (t[2] != "2") for (long long i = 0; i < n; i++) d += "</a>";
+		if (t[2] == "1") d += "</x>";
+		Xml e = Xml::decode(String(d.data(), (int)d.size()));
+		return deepShow(e);
+	}
 	if (op == "dec" && t.size() == 2) {
 		Exact d(unhex(t[1]));
 		Xml e = Xml::decode(String(d.p, (int)d.n));
